@@ -306,6 +306,39 @@ def ri_grid(reps, quick):
     return lines
 
 
+def restore_with_live_reader(ck):
+    """InstallSnapshot on a node that fell behind happens while clients are connected to it: FSM.Restore replaces the output
+    stream.  A long poll that was open before must keep delivering (fixed finding D19: readers blocked in the old stream's
+    GetNext were never woken up; the pings kept the connection alive and the client silently received nothing).  Driven
+    through the API driver: L (owner's long poll) then K (raft snapshot + FSM.Restore on the live node), probed by a PING
+    whose PONG must arrive on the SAME open stream."""
+    from props import c11 as api
+    facts, _, _ = api.scan_routes()
+    wiring = api.wiring_of(facts)
+    ops = api.setup_ops() + ["L:1", api.R("GET", "/verif-before"), "K", api.R("GET", "/verif-after"), "K", "K", api.R("GET", "/verif-after-3")]
+    line = "api restorewatch " + " ".join(ops)
+    res, out = api.run_go([line], wiring, "c05restore", timeout=900)
+    if res is None:
+        ck.add_obligation(False, "runtime-restore probe ran")
+        ck.violation("tie-broken:go-driver-restore", {"what": "the API driver did not build/run against the current tree", "output": out[-3000:],
+                                                      "obligation": "runtime restore with a live reader"}, concrete=False)
+        return
+    ck.add_obligation(True, "runtime-restore probe ran")
+    obs = [o for o in res[0][2:] if o["op"] in ("R", "K")]
+    states = [(o["op"], o.get("stream", "?")) for o in obs]
+    ck.cov["restore_with_live_reader"] = states
+    ck.cov["evaluations"] = ck.cov.get("evaluations", 0) + len(obs)
+    if states and states[0][1] != "ok":
+        ck.violation("harness:restorewatch", {"what": "the owner's long poll did not work before the restore: %r" % states, "cases": [line]}, concrete=False)
+        return
+    dead = [i for i, (op, st) in enumerate(states) if st == "dead"]
+    if dead:
+        ck.violation("live-stream-frozen-after-restore", {
+            "what": "a GetMessages long poll that was open when FSM.Restore replaced the output stream no longer delivers: the PONG of a PING posted afterwards "
+                    "did not arrive on the open stream within 5 s (stream states along the line: %r)" % states,
+            "cases": [line], "how_to_replay": "bin/check C05"}, concrete=True)
+
+
 def run(ck, replay):
     quick = ck.tier == "quick"
     ck.level = "proof"
@@ -446,6 +479,8 @@ def run(ck, replay):
                       "was restarted at least once AND at least one POST had to be repeated (measured on the run)")
     ck.cov["input_distribution"] = dist
     ck.cov["samples"] = samples
+    if not replay:
+        restore_with_live_reader(ck)
     if harness_all and not seen_sig:
         line, harness, r = harness_all[0]
         ck.violation("harness:sysdrv", {"what": "sysdrv could not complete %d scenario(s); the property is not shown to hold for them" % len(harness_all),
